@@ -432,10 +432,11 @@ pub struct SrcIter {
     spin: u32,
     log: bool,
     sleep_us: u32,
+    hold_workers: u32,
 }
 
 impl SrcIter {
-    pub fn new(items: Vec<E>, known: bool, spin: u32, log: bool, sleep_us: u32) -> Self {
+    pub fn new(items: Vec<E>, known: bool, spin: u32, log: bool, sleep_us: u32, hold_workers: u32) -> Self {
         SrcIter {
             items: items.into_iter(),
             known,
@@ -444,6 +445,7 @@ impl SrcIter {
             spin,
             log,
             sleep_us,
+            hold_workers,
         }
     }
 }
@@ -456,6 +458,15 @@ impl Iterator for SrcIter {
         }
         for _ in 0..self.spin {
             std::hint::spin_loop();
+        }
+        if self.hold_workers > 0 && self.pos == 0 {
+            // hold the source (we are inside the turnstile) until that many workers have begun - they
+            // reserve their chunks and queue behind us - or 40 ms have passed
+            let t0 = std::time::Instant::now();
+            while (sched::live_workers() as u32) < self.hold_workers && t0.elapsed() < std::time::Duration::from_millis(40) {
+                std::thread::sleep(std::time::Duration::from_micros(100));
+            }
+            std::thread::sleep(std::time::Duration::from_micros(300));
         }
         if self.sleep_us > 0 {
             // a slow source: whoever is in here holds the iterator while others reserve and queue
